@@ -48,7 +48,7 @@ func c15Directed(rng *rand.Rand, id string) Case {
 }
 
 func c15Gen(rng *rand.Rand, tier string) []Case {
-	nd, nr := 150, 250
+	nd, nr := 120, 200
 	if tier == "thorough" {
 		nd, nr = 6000, 14000
 	}
